@@ -150,6 +150,87 @@ func c08ReadRequestStream(in []byte, cuts []int, maxBody, bufSize int) c08ReadRe
 		consumed: r.given - br.Buffered()}
 }
 
+// response read the way a streaming client does it: StreamBody, then the caller drains the stream
+func c08ReadResponseStream(in []byte, cuts []int, maxBody, bufSize int) c08ReadResult {
+	r := &c08Reader{chunks: c08Chunks(in, cuts)}
+	br := bufio.NewReaderSize(r, bufSize)
+	var resp Response
+	resp.StreamBody = true
+	err := resp.ReadLimitBody(br, maxBody)
+	var body []byte
+	if err == nil && resp.bodyStream != nil {
+		body, err = io.ReadAll(io.LimitReader(resp.bodyStream, 1<<16))
+		resp.CloseBodyStream() //nolint:errcheck
+	}
+	if err != nil {
+		return c08ReadResult{consumed: r.given - br.Buffered()}
+	}
+	return c08ReadResult{ok: true, res: fmt.Sprintf("%s|%q", c08RespHeader(&resp.Header), body), consumed: r.given - br.Buffered()}
+}
+
+// earlier uses of the pooled stream objects: a streamed chunked message read to its end,
+// abandoned by the reader inside a chunk, or cut off by the connection inside a chunk
+const c08PriorChunked = "Transfer-Encoding: chunked\r\n\r\n5\r\nhello\r\n3\r\nabc\r\n0\r\n\r\n"
+
+func c08PriorStream(head string, how string, response bool) (problem string) {
+	wire := head + c08PriorChunked
+	if how == "abandoned-broken" {
+		wire = wire[:strings.Index(wire, "hello")+2]
+	}
+	br := bufio.NewReader(strings.NewReader(wire))
+	var stream io.Reader
+	var closeFn func() error
+	if response {
+		var resp Response
+		resp.StreamBody = true
+		if err := resp.ReadLimitBody(br, 0); err != nil {
+			panic("c08 prior response: " + err.Error())
+		}
+		stream, closeFn = resp.bodyStream, resp.CloseBodyStream
+		defer func() { _ = resp.StatusCode() }()
+	} else {
+		var req Request
+		if err := req.Header.Read(br); err != nil {
+			panic("c08 prior request: " + err.Error())
+		}
+		if err := req.ContinueReadBodyStream(br, 0, true); err != nil {
+			panic("c08 prior request body: " + err.Error())
+		}
+		stream, closeFn = req.bodyStream, req.CloseBodyStream
+	}
+	if stream == nil {
+		panic("c08 prior: no body stream")
+	}
+	switch how {
+	case "completed":
+		if b, err := io.ReadAll(stream); err != nil || string(b) != "helloabc" {
+			// the well-formed streamed message itself was read wrongly (state left over from
+			// an even earlier use of the pooled stream)
+			problem = fmt.Sprintf("a well-formed streamed chunked body \"hello\"+\"abc\" was read as %q, error %v", b, err)
+		}
+	case "abandoned-stop":
+		var two [2]byte
+		io.ReadFull(stream, two[:]) //nolint:errcheck
+	case "abandoned-broken":
+		io.ReadAll(stream) //nolint:errcheck
+	}
+	closeFn() //nolint:errcheck
+	return problem
+}
+
+// c08RespHeader: the parsed response header without the Date that String() generates
+func c08RespHeader(h *ResponseHeader) string {
+	var sb strings.Builder
+	fmt.Fprintf(&sb, "%d cl=%d close=%v|", h.StatusCode(), h.ContentLength(), h.ConnectionClose())
+	for k, v := range h.All() {
+		if string(k) == HeaderDate {
+			continue
+		}
+		fmt.Fprintf(&sb, "%q=%q;", k, v)
+	}
+	return sb.String()
+}
+
 func c08ReadResponse(in []byte, cuts []int, maxBody, bufSize int) c08ReadResult {
 	r := &c08Reader{chunks: c08Chunks(in, cuts)}
 	br := bufio.NewReaderSize(r, bufSize)
@@ -158,7 +239,7 @@ func c08ReadResponse(in []byte, cuts []int, maxBody, bufSize int) c08ReadResult 
 	if err != nil {
 		return c08ReadResult{consumed: r.given - br.Buffered()}
 	}
-	return c08ReadResult{ok: true, res: fmt.Sprintf("%d|%q|%q", resp.StatusCode(), resp.Header.String(), resp.Body()), consumed: r.given - br.Buffered()}
+	return c08ReadResult{ok: true, res: fmt.Sprintf("%s|%q", c08RespHeader(&resp.Header), resp.Body()), consumed: r.given - br.Buffered()}
 }
 
 func c08ReadTrailer(in []byte, cuts []int, _ int, bufSize int) c08ReadResult {
@@ -179,6 +260,7 @@ type c08Parser struct {
 	nThor  int
 	seeds  [][]string                                                      // valid messages (token sequences) to mutate
 	read   func(in []byte, cuts []int, maxBody, bufSize int) c08ReadResult // reader-based
+	prior  func(how string) string                                         // earlier use of the pooled parser state; returns a problem with that use itself
 	pure   func(in []byte)                                                 // value parsers
 }
 
@@ -194,11 +276,13 @@ func c08Parsers() []c08Parser {
 			},
 			toks: []string{"GET / HTTP/1.1\r\n", "POST /p HTTP/1.0\r\n", "Host: h\r\n", "Content-Length: 3\r\n", "Content-Length: 0\r\n",
 				"Transfer-Encoding: chunked\r\n", "Expect: 100-continue\r\n", "Content-Type: multipart/form-data; boundary=b\r\n",
+				"Content-Type: multipart/form-data; boundary=\"\r\n", "Content-Type: multipart/form-data; boundary=\"b\r\n",
 				"\r\n", "\n", "\r", "abc", "3\r\n", "0\r\n", "x", ":", " ", "--b\r\n", "--b--\r\n", "X-T: v\r\n",
 				// chunk-size lines at the edge of the integer range (15, 16, 17 hex digits) and bracketed hosts
 				"fffffffffffffff\r\n", "7fffffffffffffff\r\n", "8000000000000000\r\n", "ffffffffffffffff\r\n", "10000000000000000\r\n",
 				"Host: [::1]\r\n", "Host: [:1.2.3.4]:80\r\n", "Host: []\r\n", "Host: [fe80::1%25eth0]\r\n"}},
 		{name: "Request.ContinueReadBodyStream", nQuick: 2, nThor: 3, read: c08ReadRequestStream,
+			prior: func(how string) string { return c08PriorStream("POST /prior HTTP/1.1\r\nHost: h\r\n", how, false) },
 			seeds: [][]string{
 				{"GET / HTTP/1.1\r\n", "Host: h\r\n", "\r\n"},
 				{"POST /p HTTP/1.0\r\n", "Content-Length: 3\r\n", "\r\n", "abc"},
@@ -208,11 +292,26 @@ func c08Parsers() []c08Parser {
 			},
 			toks: []string{"GET / HTTP/1.1\r\n", "POST /p HTTP/1.0\r\n", "Host: h\r\n", "Content-Length: 3\r\n", "Content-Length: 0\r\n",
 				"Transfer-Encoding: chunked\r\n", "Expect: 100-continue\r\n", "Content-Type: multipart/form-data; boundary=b\r\n",
+				"Content-Type: multipart/form-data; boundary=\"\r\n", "Content-Type: multipart/form-data; boundary=\"b\r\n",
 				"\r\n", "\n", "\r", "abc", "3\r\n", "0\r\n", "x", ":", " ", "--b\r\n", "--b--\r\n", "X-T: v\r\n",
 				// chunk-size lines at the edge of the integer range (15, 16, 17 hex digits) and bracketed hosts
 				"fffffffffffffff\r\n", "7fffffffffffffff\r\n", "8000000000000000\r\n", "ffffffffffffffff\r\n", "10000000000000000\r\n",
 				"Host: [::1]\r\n", "Host: [:1.2.3.4]:80\r\n", "Host: []\r\n", "Host: [fe80::1%25eth0]\r\n"}},
 		{name: "Response.ReadLimitBody", nQuick: 3, nThor: 4, read: c08ReadResponse,
+			seeds: [][]string{
+				{"HTTP/1.1 200 OK\r\n", "Content-Length: 3\r\n", "\r\n", "abc"},
+				{"HTTP/1.1 200 OK\r\n", "Transfer-Encoding: chunked\r\n", "Trailer: X-T\r\n", "\r\n", "3\r\n", "abc", "\r\n", "0\r\n", "X-T: v\r\n", "\r\n"},
+				{"HTTP/1.1 200 OK\r\n", "Connection: close\r\n", "\r\n", "abc", "x"},
+				{"HTTP/1.1 100 Continue\r\n", "\r\n", "HTTP/1.1 200 OK\r\n", "Content-Length: 0\r\n", "\r\n"},
+				{"HTTP/1.0 204 No Content\r\n", "\r\n"},
+				{"HTTP/1.1 304\r\n", "Content-Length: 3\r\n", "\r\n"},
+			},
+			toks: []string{"HTTP/1.1 200 OK\r\n", "HTTP/1.1 100 Continue\r\n", "HTTP/1.0 204 No Content\r\n", "HTTP/1.1 304\r\n",
+				"Content-Length: 3\r\n", "Content-Length: 0\r\n", "Transfer-Encoding: chunked\r\n", "Transfer-Encoding: identity\r\n",
+				"Connection: close\r\n", "\r\n", "\n", "\r", "abc", "3\r\n", "0\r\n", "x", ":", " ", "X-T: v\r\n", "Trailer: X-T\r\n",
+				"fffffffffffffff\r\n", "7fffffffffffffff\r\n", "8000000000000000\r\n", "ffffffffffffffff\r\n", "10000000000000000\r\n"}},
+		{name: "Response.ReadLimitBody/StreamBody", nQuick: 2, nThor: 3, read: c08ReadResponseStream,
+			prior: func(how string) string { return c08PriorStream("HTTP/1.1 200 OK\r\n", how, true) },
 			seeds: [][]string{
 				{"HTTP/1.1 200 OK\r\n", "Content-Length: 3\r\n", "\r\n", "abc"},
 				{"HTTP/1.1 200 OK\r\n", "Transfer-Encoding: chunked\r\n", "Trailer: X-T\r\n", "\r\n", "3\r\n", "abc", "\r\n", "0\r\n", "X-T: v\r\n", "\r\n"},
@@ -283,6 +382,39 @@ func c08Parsers() []c08Parser {
 				VisitHeaderParams(in, func(k, v []byte) bool { n++; return n < 64 })
 			},
 			toks: []string{"a", "=", ";", " ", "\"", "\\", ",", "\t", "*", "'"}},
+		// Content-Type parameters of a multipart request: every token string after
+		// "multipart/form-data", through every path that looks for the boundary
+		{name: "multipart-boundary-parameter", nQuick: 5, nThor: 7,
+			pure: func(in []byte) {
+				ct := "multipart/form-data" + string(in)
+				var h RequestHeader
+				h.SetContentType(ct)
+				_ = h.MultipartFormBoundary()
+				wire := "POST /m HTTP/1.1\r\nHost: h\r\nContent-Type: " + ct + "\r\nContent-Length: 9\r\n\r\n--b\r\n--b--"
+				var req Request
+				_ = req.Read(bufio.NewReader(strings.NewReader(wire)))
+				req.RemoveMultipartFormFiles()
+				var r2 Request
+				r2.Header.SetContentType(ct)
+				r2.SetBody([]byte("--b\r\n\r\nv\r\n--b--\r\n"))
+				_, _ = r2.MultipartForm()
+				r2.RemoveMultipartFormFiles()
+				var r3 Request
+				r3.Header.SetContentType(ct)
+				r3.SetBody([]byte("--b\r\n\r\nv\r\n--b--\r\n"))
+				_, _ = r3.MultipartFormWithLimit(64)
+				r3.RemoveMultipartFormFiles()
+				var r4 Request
+				br := bufio.NewReader(strings.NewReader(wire))
+				if err := r4.Header.Read(br); err == nil {
+					if err = r4.ContinueReadBodyStream(br, 0, true); err == nil && r4.bodyStream != nil {
+						_, _ = r4.MultipartForm()
+						r4.CloseBodyStream() //nolint:errcheck
+					}
+					r4.RemoveMultipartFormFiles()
+				}
+			},
+			toks: []string{";", " ", "boundary", "=", "\"", "b", "x", ","}},
 		{name: "Request.MultipartForm", nQuick: 3, nThor: 5,
 			pure: func(in []byte) {
 				var req Request
@@ -445,6 +577,29 @@ func TestVerifC08Parsers(t *testing.T) {
 				if res.consumed > len(in) || res.consumed < 0 {
 					st.viol("beyond-input:"+p.name, fmt.Sprintf("%s: reader position %d outside the %d input bytes of %q", p.name, res.consumed, len(in), in),
 						vfRec{"input": string(in), "cuts": cuts})
+				}
+				if p.prior != nil {
+					// history: the same call after the pooled stream object was used for a message
+					// read to its end, and after one abandoned inside a chunk, must not differ
+					var base c08ReadResult
+					st.guarded(p.name, in, "after a completed streamed message", func() {
+						if pb := p.prior("completed"); pb != "" {
+							st.viol("history:"+p.name+":stream-after-earlier-use", p.name+": "+pb, vfRec{"previous_input": string(in)})
+						}
+						base = p.read(in, cuts, mb, bs)
+					})
+					for _, how := range []string{"abandoned-stop", "abandoned-broken"} {
+						var after c08ReadResult
+						st.guarded(p.name, in, "after a streamed message "+how, func() {
+							p.prior(how)
+							after = p.read(in, cuts, mb, bs)
+						})
+						if after != base {
+							st.viol("history:"+p.name+":"+how, fmt.Sprintf("%s on %q: after an earlier streamed chunked message was %s the call gives ok=%v reader position %d result %.120q, after a completed one ok=%v position %d result %.120q",
+								p.name, in, how, after.ok, after.consumed, after.res, base.ok, base.consumed, base.res),
+								vfRec{"input": string(in), "cuts": cuts, "maxBody": mb, "bufio": bs, "prior": how})
+						}
+					}
 				}
 				if res.ok {
 					st.okByP[p.name]++
